@@ -32,6 +32,20 @@ MINGAP = oracle.HELLO_MIN_INTERVAL_MS
 def run(tier):
     rep = Report('C12', tier)
     prog = load_core('systemd')
+    decide(rep, prog)
+    return finish(rep, 'other',
+                  'Decides, on the non-testing build of the core: single caller of the send slot; a send implies a non-empty, not-all-complete table; every send is dominated by the '
+                  'failed suppression test against the last transmit time and post-dominated by storing now into it, and nothing else stores it - hence consecutive periodic Hellos are '
+                  '>= 1000 ms apart for every interleaving of ticks and clock advances (the clock is monotone and > 0); an empty table silences and resets the enumerator. '
+                  'NOT decided: how the Darwin daemon wires the time stamp and the documented frame-processing flow (darwin-main.c does not parse here).',
+                  'who-may-call / who-may-write over resolved ASTs + abstract interpretation of automata_tick per RepeatBand state', exhaustive=False,
+                  assumptions=['monotonic clock is non-decreasing and > 0 (a send at time 0 would defeat the "last_tx > 0" test)',
+                               'the last-transmit variable is written only through the tick port (Darwin wiring not parseable here)'])
+
+
+def decide(rep, prog):
+    """All tick obligations; `rep` may be a RuleView of another property's report (C09: an emptied table returns the
+    enumerator to Quiescent at once)."""
     ix = prog.unit(AUTOMATA_UNIT)
     fnf = 'lltdResponder/lltdAutomata.c'
     if 'automata_tick' not in ix.functions:
@@ -201,14 +215,6 @@ def run(tier):
     from .c07 import RuleView
     rep.rule('R12.g', 'the session table the gate reads is truthful: count = number of valid entries, flag = for-all, after add / remove / clear / expiry', floor=60)
     table_decide(RuleView(rep, {r: 'R12.g' for r in ('R16.add', 'R16.remove', 'R16.clear', 'R16.status', 'R16.query', 'R16.expiry')}), prog)
-    return finish(rep, 'other',
-                  'Decides, on the non-testing build of the core: single caller of the send slot; a send implies a non-empty, not-all-complete table; every send is dominated by the '
-                  'failed suppression test against the last transmit time and post-dominated by storing now into it, and nothing else stores it - hence consecutive periodic Hellos are '
-                  '>= 1000 ms apart for every interleaving of ticks and clock advances (the clock is monotone and > 0); an empty table silences and resets the enumerator. '
-                  'NOT decided: how the Darwin daemon wires the time stamp and the documented frame-processing flow (darwin-main.c does not parse here).',
-                  'who-may-call / who-may-write over resolved ASTs + abstract interpretation of automata_tick per RepeatBand state', exhaustive=False,
-                  assumptions=['monotonic clock is non-decreasing and > 0 (a send at time 0 would defeat the "last_tx > 0" test)',
-                               'the last-transmit variable is written only through the tick port (Darwin wiring not parseable here)'])
 
 
 def same_tick_scenarios(rep, prog, ix, Eu):
